@@ -281,6 +281,97 @@ func runLookupStages(c *Ctx, r *RuleRun) {
 	if nret == 0 {
 		r.Undecided(fn, "hit returns the block search's entry", "", "no found-return recognised")
 	}
+	// 8. every level and every table is consulted until one answers: the loops of the lookup are left only through
+	// their own condition (list/range exhausted) or by a found-return
+	isFoundRet := func(b *ssa.BasicBlock) bool {
+		if len(b.Instrs) == 0 {
+			return false
+		}
+		ret, ok := b.Instrs[len(b.Instrs)-1].(*ssa.Return)
+		if !ok || len(ret.Results) != 2 {
+			return false
+		}
+		return isConstBool(retOperand(ret, 1), true)
+	}
+	nl := 0
+	for _, lp := range naturalLoops(a.slb) {
+		nl++
+		bad := ""
+		var badPos token.Pos
+		for blk := range lp.body {
+			for _, s := range blk.Succs {
+				if lp.body[s] || blk == lp.header {
+					continue
+				}
+				// follow plain jumps (rundefers blocks etc.) to see where this exit leads
+				t := s
+				for i := 0; i < 4 && len(t.Succs) == 1 && !isFoundRet(t); i++ {
+					if _, isJump := t.Instrs[len(t.Instrs)-1].(*ssa.Jump); !isJump {
+						break
+					}
+					t = t.Succs[0]
+				}
+				if isFoundRet(t) || isFoundRet(s) {
+					continue
+				}
+				if len(blk.Instrs) > 0 {
+					if _, isPanic := blk.Instrs[len(blk.Instrs)-1].(*ssa.Panic); isPanic {
+						continue
+					}
+				}
+				bad = "the loop is left from " + blk.Comment + " without an answer"
+				badPos = instrPos(blk.Instrs[len(blk.Instrs)-1])
+			}
+		}
+		pos := instrPos(lp.header.Instrs[len(lp.header.Instrs)-1])
+		if bad != "" {
+			pos = badPos
+		}
+		r.Check(bad == "", fn, "every table is consulted until one answers", p.Pos(pos), "left only through the loop's own condition or a found-return",
+			"the walk over levels/tables is cut short ("+bad+"): a table that holds the newest visible version further on is never consulted (e.g. after a bloom-filter false positive of an earlier table)")
+	}
+	if nl == 0 {
+		r.Undecided(fn, "every table is consulted until one answers", "", "no loop over levels/tables found")
+	}
+}
+
+type natLoop struct {
+	header *ssa.BasicBlock
+	body   map[*ssa.BasicBlock]bool
+}
+
+// naturalLoops of a function: for every back edge p→h (h dominates p) the blocks that reach p without passing h.
+func naturalLoops(f *ssa.Function) []natLoop {
+	byHeader := map[*ssa.BasicBlock]map[*ssa.BasicBlock]bool{}
+	var order []*ssa.BasicBlock
+	for _, b := range f.Blocks {
+		for _, s := range b.Succs {
+			if !s.Dominates(b) {
+				continue
+			}
+			body := byHeader[s]
+			if body == nil {
+				body = map[*ssa.BasicBlock]bool{s: true}
+				byHeader[s] = body
+				order = append(order, s)
+			}
+			stack := []*ssa.BasicBlock{b}
+			for len(stack) > 0 {
+				x := stack[len(stack)-1]
+				stack = stack[:len(stack)-1]
+				if body[x] {
+					continue
+				}
+				body[x] = true
+				stack = append(stack, x.Preds...)
+			}
+		}
+	}
+	var out []natLoop
+	for _, h := range order {
+		out = append(out, natLoop{h, byHeader[h]})
+	}
+	return out
 }
 
 // baseStored: the value stored into a local cell (th := e.Value.(tableHandle)).
@@ -955,7 +1046,51 @@ func (b *bsearch) result(header, body, pt, pf *ssa.BasicBlock, low *ssa.Phi, mid
 			b.viol("result element", instrPos(ret), "a found-return inside the loop hands out something other than the middle element")
 		}
 	}
-	_ = notFound
+	// not-found answers: after the loop (nothing qualified), or before it only when no element can qualify
+	for _, ret := range notFound {
+		rb := ret.Block()
+		switch {
+		case inRegion(body, rb):
+			b.viol("not found only when nothing qualifies", instrPos(ret), "not-found is answered inside the search loop, before the interval is exhausted")
+		case header.Dominates(rb):
+			b.hold("not found only when nothing qualifies", instrPos(ret), "after the loop")
+		default:
+			// before the loop: every way to this return establishes "empty" or "last element below the key"
+			okAll, n := true, 0
+			seen := map[*ssa.BasicBlock]bool{}
+			var walk func(blk *ssa.BasicBlock)
+			walk = func(blk *ssa.BasicBlock) {
+				if seen[blk] {
+					return
+				}
+				seen[blk] = true
+				if len(blk.Preds) == 0 {
+					okAll = false
+				}
+				for _, pr := range blk.Preds {
+					if len(pr.Instrs) == 0 {
+						okAll = false
+						continue
+					}
+					switch last := pr.Instrs[len(pr.Instrs)-1].(type) {
+					case *ssa.If:
+						truth := pr.Succs[0] == blk
+						n++
+						if !b.nothingQualifies(canonCond(last.Cond, truth), last.Cond, truth) {
+							okAll = false
+						}
+					case *ssa.Jump:
+						walk(pr)
+					default:
+						okAll = false
+					}
+				}
+			}
+			walk(rb)
+			b.check(okAll && n > 0, "not found only when nothing qualifies", instrPos(ret), "early exit only for an empty container or when the last element is below the key",
+				"not-found is answered before the search on a condition under which an element at or above the key can exist (e.g. `last <= key`): the entry equal to the key at the end of the container is missed")
+		}
+	}
 }
 
 func isLenOf(v ssa.Value, cont *types.Var) bool {
@@ -1013,6 +1148,37 @@ func (b *bsearch) neighbourCheck(ret *ssa.Return, pt *ssa.BasicBlock, mid ssa.Va
 	walk(ret.Block())
 	b.check(okAll && n > 0, "no smaller element qualifies", instrPos(ret), "every way to this return passes mid == 0 or CompareKeys(elem[mid-1], key) < 0",
 		"the middle element is returned although an earlier element may also be at or above the key (the neighbour test is missing or different on some way to the return): a later key, or an older version than the newest allowed one, is returned")
+}
+
+// nothingQualifies: the fact says the container is empty, or that its last element is below the key.
+func (b *bsearch) nothingQualifies(c Cmp, cond ssa.Value, truth bool) bool {
+	if c.Y != nil {
+		x, y, op := stripValue(c.X), stripValue(c.Y), c.Op
+		if isLenOf(y, b.cont) {
+			x, y, op = y, x, flipCmp(op)
+		}
+		if isLenOf(x, b.cont) {
+			if k, isK := constInt(y); isK {
+				return (op == "==" && k == 0) || (op == "<=" && k == 0) || (op == "<" && k == 1)
+			}
+		}
+	}
+	op, idx, fld, ok := b.pred(cond)
+	if !ok {
+		return false
+	}
+	if !truth {
+		op = negateOp(op)
+	}
+	if op != "<" || fld != b.elemField {
+		return false
+	}
+	bo, isBo := stripValue(idx).(*ssa.BinOp)
+	if !isBo || bo.Op != token.SUB || !isLenOf(bo.X, b.cont) {
+		return false
+	}
+	k, isK := constInt(bo.Y)
+	return isK && k == 1
 }
 
 func (b *bsearch) isNeighbourFact(c Cmp, cond ssa.Value, truth bool, mid ssa.Value) bool {
